@@ -321,7 +321,7 @@ def w_symbol(val: int, at_end: bool) -> bool:
 def w_expr(off: int, scale: int, unk: int) -> bool:
     """
     pre: _i64(off) and _i64(scale)
-    pre: 1000 <= unk < 2**31
+    pre: 27 <= unk < 1000 or 4010 <= unk < 2**31
     post: __return__
     """
     kind = SHARD["kind"]
